@@ -158,12 +158,29 @@ def run_case(ctx, name, params):
         m = r.randint(1, 4)
         crit = [r.choice(["minimize", "maximize"]) for _ in range(m)]
         signs = [1 if c == "minimize" else -1 for c in crit]
-        cons_mode = r.choice([None, None, "one", "two"])
+        cons_mode = r.choice([None, None, "one", "two", "several"])
         cons = None
         if cons_mode == "one":
             cons = lambda x: [x[0]]
         elif cons_mode == "two":
             cons = lambda x: [x[0], x[-1] - 0.5]
+        elif cons_mode == "several":
+            # 2..4 constraint values per design in every position: satisfied (negative, -inf), exactly zero, violated, and
+            # values that are not comparable at all (NaN is not < 0: such a design does not satisfy g<0); Python floats,
+            # ints and numpy scalars
+            import numpy as _np
+            k_ = r.randint(2, 4)
+            pool_ = [-1.0, -2, -math.inf, -1e-300, _np.float64(-0.5), 0.0, 5e-324, 3, math.inf, math.nan, _np.float64("nan"), -1.0, -1.0]
+            tab_ = [[r.choice(pool_) for _ in range(k_)] for _ in range(7)]
+            for row_ in tab_[:3]:
+                row_[:] = [r.choice([-1.0, -2, -math.inf, _np.float64(-0.5)]) for _ in range(k_)]      # rows that satisfy everything
+            if r.random() < 0.5:
+                row_ = tab_[3]
+                row_[:] = [-1.0] * k_
+                row_[r.randrange(1, k_)] = r.choice([math.nan, 0.0, 5e-324])         # a single offender, not in the first slot
+
+            def cons(x, tab_=tab_):
+                return list(tab_[int(abs(x[0]) * 1e6) % len(tab_)])
         procs = r.choice([1, 1, 1, 2, 3])
         S = None
         eg = None
@@ -183,7 +200,7 @@ def run_case(ctx, name, params):
                 batch.append(r.choice(batch))        # the same object twice in one batch
                 continue
             vec = [r.uniform(-1, 1) for _ in range(n)]
-            if cons is not None:
+            if cons is not None and cons_mode != "several":
                 vec[0] = r.choice([-1.0, -1e-300, -5e-324, 0.0, 5e-324, 1e-300, 1.0, r.uniform(-1, 1)])
             ind = Individual(vec)
             ind.features["precision"] = r.choice([7, 7, 0, 1, 3, 10])
